@@ -14,7 +14,7 @@ ASSUMPTIONS = ["views are taken immediately before use (a view kept across growt
 
 
 def histories(rng, tier):
-    n = 120 if tier == 'quick' else 2500
+    n = 300 if tier == 'quick' else 2500
     out = []
     for _ in range(n):
         c = gen.rand_cfg(rng, kinds=['rec'], max_npix=768, name='m')
